@@ -1,1 +1,3 @@
-
+pub mod lexer;
+pub mod pos;
+pub mod pp;
